@@ -109,6 +109,40 @@ def seams_end():
     return calls, pending
 
 
+class SimClock:
+    """S8: every clock the standard library offers, replaced inside the forked run child by a
+    counter that jumps ahead at each read.  sempler has no timer; code that lets a clock leak
+    into a seeded result is exposed because the jump makes any two reads differ."""
+
+    def __init__(self, start):
+        self.t = float(start)
+        self.reads = 0
+
+    def _tick(self):
+        self.reads += 1
+        self.t += 1000.003
+        return self.t
+
+    def install(self):
+        import time
+        time.time = self._tick
+        time.monotonic = self._tick
+        time.perf_counter = self._tick
+        time.time_ns = lambda: int(self._tick() * 1e9)
+        time.monotonic_ns = lambda: int(self._tick() * 1e9)
+        time.perf_counter_ns = lambda: int(self._tick() * 1e9)
+
+
+CLOCK = None
+
+
+def install_clock(start):
+    global CLOCK
+    CLOCK = SimClock(start)
+    CLOCK.install()
+    return CLOCK
+
+
 def make_exc(name):
     if name == "MemoryError":
         return MemoryError("injected by simulator")
